@@ -400,7 +400,8 @@ int main(int argc, char** argv)
             if (only && std::string(only).find(":" + std::to_string(tip)) == std::string::npos) return;
             done.insert(tip);
             if (ck::ThreadCount() != 1) { printf("HARNESS-ERROR C19 process is not single-threaded before fork\n"); exit(2); }
-            const std::vector<Scen> sc = Scenarios(tip, big);
+            std::vector<Scen> sc = Scenarios(tip, big);
+            if (const char* mj = getenv("VX_C19_MAXJOBS")) sc.resize(std::min<size_t>(sc.size(), atoi(mj)));
             fp::Pool pool;
             pool.isolate_jobs = true;
             pool.workers = std::min<unsigned>(vx::ncpu(), 12);
